@@ -257,6 +257,69 @@ theorem duration_frac_roundtrip (cfg : Cfg) (hc : CfgOK cfg) (u : DUnit) (ip fp 
 example : (nstr 5).length = 1 ∧ (nstr 150).length = 3 ∧ decStr false 5 (-1) = [48, 46, 53] ∧
     decStr false 1 (-6) = [48, 46, 48, 48, 48, 48, 48, 49] ∧ decStr false 1 (-7) = [49, 69, 45, 55] := by decide
 
+/-- a duration string whose amount is followed by an `E` (what `str(Decimal)` prints in scientific notation) matches
+no pattern: `Timex(s)` has no field at all -/
+theorem parse_dur_exponent (cfg : Cfg) (hc : CfgOK cfg) (u : DUnit) (d0 : Nat) (dt R : Str)
+    (n82 : ¬ (d0 = 82)) (n84 : ¬ (d0 = 84))
+    (hm : ∀ rest, matchAmount cfg.dv (d0 :: (dt ++ 69 :: rest)) = some (d0 :: dt, 69 :: rest)) :
+    parse cfg (renderDur u (d0 :: dt ++ 69 :: R)) = {} := by
+  have hT : ∀ rest, matchAmount cfg.dv (84 :: d0 :: rest) = none := by
+    intro rest; simp [matchAmount, takeDigits, isDig, hc.dv.2 84 (by decide)]
+  cases u <;>
+    simp [renderDur, DUnit.isTime, DUnit.ch, parse, parseInto, sPresentRef, extractDuration, extract, hc.period, stdPeriod,
+      firstSome, matchItems, startsWith, Timex.assign, n82, n84, hm, hT]
+
+/-- C14 **tiny_amount_general** — the other side of the guard of `duration_frac_roundtrip`, for ALL amounts: when
+`len(fp) ≥ len(str(int(ip ++ fp))) + 6` the formatter prints the amount in scientific notation (`1E-7`), a text no
+`TimexRegex` pattern accepts — `Timex(Timex(s).timex_value())` has no field, while `Timex(s)` has its duration field.
+(Recorded finding `tiny-amount-scientific`; `tiny_amount_not_stable` is the instance the check replays.) -/
+theorem tiny_amount_general (cfg : Cfg) (hc : CfgOK cfg) (u : DUnit) (ip fp : Str) (hip : AsciiDigs ip)
+    (hfp : AsciiDigs fp) (hne : fp ≠ [])
+    (hguard : fp.length ≥ (nstr (parseNatDv cfg.dv (ip ++ fp))).length + 6) :
+    ∃ v, formatT (parse cfg (renderDur u (ip ++ 46 :: fp))) = .ok v ∧ parse cfg v = {} ∧
+      parse cfg (renderDur u (ip ++ 46 :: fp)) ≠ {} := by
+  have h1 := parse_dur_frac cfg hc u ip fp hip hfp hne
+  refine ⟨renderDur u (decStr false (parseNatDv cfg.dv (ip ++ fp)) (-(fp.length : Int))), ?_, ?_, ?_⟩
+  · rw [h1, format_dur_dec]
+  · -- the scientific text: one digit, optionally `.` and more digits, then `E-n`
+    have hds := nstr_ascii (parseNatDv cfg.dv (ip ++ fp))
+    have hnn := nstr_ne_nil (parseNatDv cfg.dv (ip ++ fp))
+    have h69 : cfg.dv 69 = none := hc.dv.2 69 (by decide)
+    by_cases hl : (nstr (parseNatDv cfg.dv (ip ++ fp))).length = 1
+    · rw [decStr_sci1 _ _ hl hguard]
+      obtain ⟨d0, hd0⟩ : ∃ d0, nstr (parseNatDv cfg.dv (ip ++ fp)) = [d0] := by
+        cases hx : nstr (parseNatDv cfg.dv (ip ++ fp)) with
+        | nil => exact absurd hx hnn
+        | cons a r => cases r with
+          | nil => exact ⟨a, rfl⟩
+          | cons b r' => rw [hx] at hl; simp at hl
+      rw [hd0] at hds ⊢
+      have hb := hds d0 (by simp)
+      refine parse_dur_exponent cfg hc u d0 [] _ (by omega) (by omega) ?_
+      intro rest
+      have := matchAmount_int hc.dv [d0] 69 rest hds (by simp) h69 (by decide)
+      simpa using this
+    · have hlen : 1 < (nstr (parseNatDv cfg.dv (ip ++ fp))).length := by
+        have : 0 < (nstr (parseNatDv cfg.dv (ip ++ fp))).length := List.length_pos_iff.mpr hnn
+        omega
+      rw [decStr_sciN _ _ hlen hguard]
+      obtain ⟨d0, r, hd0⟩ : ∃ d0 r, nstr (parseNatDv cfg.dv (ip ++ fp)) = d0 :: r := by
+        cases hx : nstr (parseNatDv cfg.dv (ip ++ fp)) with
+        | nil => exact absurd hx hnn
+        | cons a r => exact ⟨a, r, rfl⟩
+      rw [hd0] at hds hlen ⊢
+      have hb := hds d0 (by simp)
+      have hr : AsciiDigs r := fun x hx => hds x (by simp [hx])
+      have hrne : r ≠ [] := by intro h; rw [h] at hlen; simp at hlen
+      simp only [List.take_succ_cons, List.take_zero, List.drop_succ_cons, List.drop_zero, List.cons_append, List.nil_append,
+        List.append_assoc]
+      refine parse_dur_exponent cfg hc u d0 (46 :: r) _ (by omega) (by omega) ?_
+      intro rest
+      have := matchAmount_frac hc.dv [d0] r 69 rest (fun x hx => by simp at hx; subst hx; exact hb) hr hrne h69
+      simpa using this
+  · rw [h1]
+    cases u <;> simp [durFields]
+
 /-! ## durations and the recorded / repaired defects -/
 
 /-- integral amounts print as plain digits for every unit field (here days and hours): `Timex(days=Decimal(n))`
